@@ -1070,6 +1070,200 @@ func runLF(res *hx.Result, lc *hx.Cases, U int, prefix []Op, isAdd bool, x FG) {
 		map[string]interface{}{"prefix": names, "call": call, "count_seen": cnt, "last_seen": lg})
 }
 
+// ---- readers that take the read lock vs a writer parked in the middle of save / remove ----
+// stepDB parks the caller before its k-th store write (Put or Delete, counted from 0).
+type stepDB struct {
+	db.Database
+	mu               sync.Mutex
+	armed            bool
+	k, n             int
+	entered, release chan struct{}
+}
+
+func (p *stepDB) gate() {
+	p.mu.Lock()
+	hit := p.armed && p.n == p.k
+	p.n++
+	if hit {
+		p.armed = false
+	}
+	p.mu.Unlock()
+	if hit {
+		close(p.entered)
+		<-p.release
+	}
+}
+func (p *stepDB) Put(k, v []byte) error { p.gate(); return p.Database.Put(k, v) }
+func (p *stepDB) Delete(k []byte) error { p.gate(); return p.Database.Delete(k) }
+
+const readerGrace = 300 * time.Millisecond // a reader that has not returned by then counts as waiting for the writer
+
+// runReaders: prefix sequentially; the writer (AddGroup / remove(last) / removeFromCommonAncestor) in its
+// own goroutine, parked before its k-th store write, i.e. inside the write lock; every exported reader
+// that takes the read lock is called from its own goroutine. On the code as it stands none of them
+// returns before the writer is released. One that does return is reported, together with what it saw
+// next to Count()/LastGroup().
+func runReaders(res *hx.Result, U int, prefix []Op, w Op, k int) {
+	names := make([]string, len(prefix))
+	for i, o := range prefix {
+		names[i] = o.String()
+	}
+	writes := map[int][]string{opAdd: {"Put(id, record)", "Put(gcurrent)", "Put(key(count))", "Put(gcount)"},
+		opRemoveLast: {"Delete(id)", "Put(gcurrent)", "Delete(key(count-1))", "Put(gcount)"},
+		opRemoveFrom: {"Delete(id)", "Put(gcurrent)", "Delete(key(count-1))", "Put(gcount)"}}[w.K]
+	at := fmt.Sprintf("%s held before its store write %d = %s", w.String(), k, writes[k%4])
+	if k >= 4 {
+		at += fmt.Sprintf(" of removal %d", k/4+1)
+	}
+	parked := fmt.Sprintf("%s@write%d", w.kind(), k)
+	desc := map[string]interface{}{"genesis": "id 1, PreGroup nil", "sequential-prefix": names, "writer": at}
+	freshStore(U)
+	for _, o := range prefix {
+		if _, pan := applySafe(o); pan != nil {
+			res.Violate("C19/schedules:panic:"+parked, fmt.Sprint("panic in the sequential prefix: ", pan), desc)
+			return
+		}
+	}
+	sd := &stepDB{armed: true, k: k, entered: make(chan struct{}), release: make(chan struct{})}
+	orig := core.VerifGCWrapStore(func(d db.Database) db.Database { sd.Database = d; return sd })
+	defer core.VerifGCWrapStore(func(db.Database) db.Database { return orig })
+	wDone := make(chan interface{}, 1)
+	go func() {
+		_, pan := applySafe(w)
+		wDone <- pan
+	}()
+	select {
+	case <-sd.entered:
+	case pan := <-wDone:
+		if pan != nil {
+			res.Violate("C19/schedules:panic:"+parked, fmt.Sprint("panic: ", pan), desc)
+		}
+		res.Count("readers:"+parked+":writer-made-fewer-writes", "rd;"+strings.Join(names, ";")+"|"+at, false)
+		return
+	case <-time.After(schedStuck):
+		res.Violate("C19/schedules:stuck:"+parked, "the writer neither reached the store write nor returned", desc)
+		close(sd.release)
+		return
+	}
+	gc := core.GetGroupChain()
+	cnt, lg := gc.Count(), gc.LastGroup() // neither takes the lock (listed finding C19/lockfree-reader covers this pair)
+	type rd struct {
+		name string
+		f    func() string // "" = what it saw is consistent with Count()/LastGroup(); else the clause it breaks
+	}
+	readers := []rd{
+		{"GetGroupById", func() string {
+			if g := gc.GetGroupById(lg.Id); g == nil {
+				return fmt.Sprintf("LastGroup() is group %d but GetGroupById of its id returns nothing (every listed group must be retrievable by id)", idNum(lg.Id))
+			}
+			return ""
+		}},
+		{"GetGroupByHeight", func() string {
+			if cnt == 0 {
+				return ""
+			}
+			if g := gc.GetGroupByHeight(cnt - 1); g == nil {
+				return fmt.Sprintf("Count()=%d but GetGroupByHeight(%d) returns nothing", cnt, cnt-1)
+			} else if g.GroupHeight != cnt-1 {
+				return fmt.Sprintf("GetGroupByHeight(%d) returns a group of height %d", cnt-1, g.GroupHeight)
+			}
+			return ""
+		}},
+		{"GetSyncGroupsByHeight", func() string {
+			l := core.VerifGCSyncGroupsByHeight(0, 5)
+			for i, g := range l {
+				if g == nil {
+					return fmt.Sprintf("GetSyncGroupsByHeight(0,5) has a nil entry at %d", i)
+				}
+			}
+			if uint64(len(l)) < cnt && len(l) < 5 {
+				return fmt.Sprintf("Count()=%d but GetSyncGroupsByHeight(0,5) returns %d groups", cnt, len(l))
+			}
+			return ""
+		}},
+		{"GetSyncGroupsById", func() string { // genesis stays on the chain: the unlocked first lookup of this method finds it and the method then takes the lock
+			for i, g := range gc.GetSyncGroupsById(idBytes(1)) {
+				if g == nil {
+					return fmt.Sprintf("GetSyncGroupsById(genesis) has a nil entry at %d", i)
+				}
+			}
+			return ""
+		}},
+		{"Iterator.MovePre", func() string {
+			it := gc.Iterator()
+			cur := it.Current()
+			if p := it.MovePre(); p == nil && len(cur.Header.PreGroup) != 0 {
+				return fmt.Sprintf("the iterator stands on group %d whose predecessor %d cannot be found", idNum(cur.Id), idNum(cur.Header.PreGroup))
+			}
+			return ""
+		}},
+	}
+	type ans struct {
+		i   int
+		bad string
+		pan interface{}
+	}
+	out := make(chan ans, len(readers))
+	for i := range readers {
+		go func(i int) {
+			var a ans
+			a.i = i
+			func() {
+				defer func() { a.pan = recover() }()
+				a.bad = readers[i].f()
+			}()
+			out <- a
+		}(i)
+	}
+	returned := map[int]ans{}
+	deadline := time.After(readerGrace)
+collect:
+	for len(returned) < len(readers) {
+		select {
+		case a := <-out:
+			returned[a.i] = a
+		case <-deadline:
+			break collect
+		}
+	}
+	early := len(returned)
+	for i, r := range readers {
+		a, ok := returned[i]
+		if !ok {
+			continue
+		}
+		what := fmt.Sprintf("%s returned while %s (inside the write lock); Count()=%d LastGroup()=%s at that moment", r.name, at, cnt, proj(lg).coq())
+		if a.pan != nil {
+			what += fmt.Sprint("; it panicked: ", a.pan)
+		} else if a.bad != "" {
+			what += "; what it saw breaks the property: " + a.bad
+		} else {
+			what += "; what it saw happens to agree with them"
+		}
+		res.Violate("C19/schedules:reader-not-excluded:"+r.name+":"+parked, what, desc)
+	}
+	close(sd.release)
+	if pan := <-wDone; pan != nil {
+		res.Violate("C19/schedules:panic:"+parked, fmt.Sprint("panic: ", pan), desc)
+	}
+	for len(returned) < len(readers) { // the waiting readers go on once the writer has left
+		select {
+		case a := <-out:
+			returned[a.i] = a
+			if a.pan != nil { // what it compares with (Count()/LastGroup()) was read before the writer finished: only a panic counts here
+				res.Violate("C19/schedules:reader-after-writer:"+readers[a.i].name+":"+parked, fmt.Sprint("a reader that waited for the writer panics: ", a.pan), desc)
+			}
+		case <-time.After(schedStuck):
+			res.Violate("C19/schedules:stuck:"+parked, "a reader does not return after the writer has returned", desc)
+			return
+		}
+	}
+	res.Count(fmt.Sprintf("readers:%s:%d-of-%d-readers-returned-early", parked, early, len(readers)), "rd;"+strings.Join(names, ";")+"|"+at, true)
+	for _, b := range intrinsic(U, observe(U, 0), false) {
+		res.Violate("C19/schedules:after-parked-writer:"+parked, b, desc)
+	}
+}
+
 // ---- key-space collisions: a group whose id is a key of another kind (8-byte height key, "gcurrent",
 // "gcount"); only reachable with a CheckGroup that accepts such an id (the real one demands
 // g.Id = NewIDFromPubkey(gpk).Serialize(), 32 bytes), so nothing here is reported as a violation: the
@@ -1383,6 +1577,14 @@ func main() {
 	runLF(res, lc, 7, []Op{add(2, 1, 1), add(3, 2, 1), add(4, 3, 1)}, false, FG{})
 	runLF(res, lc, 7, []Op{add(2, 1, 1)}, true, FG{3, 1, 1}) // refused (PreGroup is not the last group): nothing is written
 	res.Note("lock-free readers: save / remove are parked at Put(\"gcount\") (between count++/count-- and the assignment of lastGroup) through a store wrapper; Count() and LastGroup() are read at that moment and compared with the model's save_mid / remove_mid")
+	// locked readers vs a writer parked at each of its store writes
+	for k := 0; k < 4; k++ {
+		runReaders(res, 7, []Op{add(2, 1, 1), add(3, 2, 1)}, add(4, 3, 2), k)
+		runReaders(res, 7, []Op{add(2, 1, 1), add(3, 2, 1)}, Op{K: opRemoveLast}, k)
+	}
+	runReaders(res, 7, []Op{add(2, 1, 1), add(3, 2, 1), add(4, 3, 1)}, Op{K: opRemoveFrom, H: 0}, 5)
+	runReaders(res, 7, []Op{add(2, 1, 1), add(3, 2, 1), add(4, 3, 1)}, Op{K: opRemoveFrom, H: 0}, 10)
+	res.Note(fmt.Sprintf("locked readers: AddGroup / remove(last) are parked before each of their four store writes (and removeFromCommonAncestor inside its 2nd and 3rd removal) through a store wrapper, i.e. inside the write lock; GetGroupById, GetGroupByHeight, GetSyncGroupsByHeight, GetSyncGroupsById and Iterator.MovePre are each called from their own goroutine; one that returns within %v (before the writer is released) is reported with what it saw; one that is merely slow counts as waiting", readerGrace))
 	// key-space collisions
 	kc := hx.NewCasesNamed(a.Out, "keys", "From V.C19 Require Import KeyModel Harness.\nOpen Scope N_scope.",
 		"list N * list N * N * N * bool * bool * bool", "check_keys", 100)
